@@ -329,6 +329,15 @@ func (c *Conn) accept(p []byte) (int, error) {
 	return len(p), nil
 }
 
+// IsCut reports whether the cut of this direction has fired.
+func (d *Dir) IsCut() bool { return d.cut }
+
+// StallNow stops delivery on this direction from the current offset on, forever.
+func (d *Dir) StallNow() {
+	d.StallAt = d.Delivered
+	d.StallFor = 100000 * time.Hour
+}
+
 // CutNow cuts the direction this end writes to at the current offset.
 func (d *Dir) CutNow() { d.CutAt = len(d.Tap) }
 
